@@ -2,9 +2,11 @@ import ComposeVerif.Model.MapOrder
 /-!
 # C02 — proved negations (concrete witnesses, `by decide`)
 
-* `newGraph_order_dependent` — the unchanged tree falsifies "the outcome of `graph.newGraph` does not depend on the
-  iteration order of `depends_on`" (DESIGN §10 #5; finding `nondeterministic:graph.newGraph`, replayed on the real
-  code by `corpus/C02/newgraph-self-optional.json` and `corpus/C02/load-self-optional.json`).
+* `newGraphOld_order_dependent` — `graph.newGraph` *before* `fix:` 3143716 (`newGraphOld`: it ran
+  `delete(s.DependsOn, name)` with the service's own name while ranging) falsified "the outcome does not depend on the
+  iteration order of `depends_on`" (DESIGN §10 #5; repaired finding `nondeterministic:graph.newGraph`;
+  `corpus/C02/newgraph-self-optional.json` and `corpus/C02/load-self-optional.json` replay the witness on the real
+  code, which now gives one outcome).  The current function: `Props.C02.newGraph_perm`, `newGraph_no_mutation`.
 * `sshDecodeUnsorted_order_dependent` — the code of `SSHConfig.DecodeMapstructure` *before* the `fix:` commit
   (DESIGN §10 #6): kept as the reason for the fix; the current code is `sshDecode` (Props.C02.sshDecode_perm).
 * `intoSeqUnsorted_order_dependent` — `convertIntoSequence` without its `slices.SortFunc` would leak the order:
@@ -23,6 +25,40 @@ instance decEqExcept {ε α : Type} [DecidableEq ε] [DecidableEq α] : Decidabl
 /-- project a sequence of strings out of `Option (List Val)` (`Val` has no decidable equality) -/
 def strsOf (o : Option (List Val)) : Option (List String) := o.map (·.map fmtV)
 
+/-- state of the old inner loop: edges collected so far, and whether `delete(s.DependsOn, name)` has been executed -/
+structure LoopStOld where
+  edges : List String
+  selfDeleted : Bool
+deriving Repr, DecidableEq
+
+/-- the loop as it was, with Go's delete-during-range semantics -/
+def depLoopOld (enabled disabled : List String) (name : String) : AL Bool → LoopStOld → Except GErr LoopStOld
+  | [], st => .ok st
+  | (dep, required) :: r, st =>
+    if dep = name && st.selfDeleted then depLoopOld enabled disabled name r st   -- entry was deleted before being reached
+    else if enabled.contains dep then depLoopOld enabled disabled name r { st with edges := st.edges ++ [dep] }
+    else if required then
+      (if disabled.contains dep then .error .disabled else .error .unknown)
+    else depLoopOld enabled disabled name r { st with selfDeleted := true }
+
+def svcAfterOld (s : Svc) (st : LoopStOld) : Svc :=
+  if st.selfDeleted then { s with deps := s.deps.filter (fun kv => kv.1 ≠ s.name) } else s
+
+def graphLoopOld (enabled disabled : List String) : List Svc → Except GErr (List Svc × AL (List String))
+  | [] => .ok ([], [])
+  | s :: r =>
+    match depLoopOld enabled disabled s.name s.deps ⟨[], false⟩ with
+    | .error e => .error e
+    | .ok st =>
+      match graphLoopOld enabled disabled r with
+      | .error e => .error e
+      | .ok (ss, adj) => .ok (svcAfterOld s st :: ss, (s.name, st.edges) :: adj)
+
+def newGraphOld (svcs : List Svc) (disabled : List String) : Except GErr (List Svc) :=
+  match graphLoopOld (svcs.map (·.name)) disabled svcs with
+  | .error e => .error e
+  | .ok (ss, adj) => if hasCycle adj then .error .cycle else .ok ss
+
 /-- service `a` depends on itself (required) and, optionally, on `off`, which is not enabled -/
 def selfFirst : List Svc := [⟨"a", [("a", true), ("off", false)]⟩]
 /-- the same project, the `depends_on` map iterated in the other order -/
@@ -31,19 +67,24 @@ def optFirst : List Svc := [⟨"a", [("off", false), ("a", true)]⟩]
 theorem selfFirst_perm_optFirst :
     ([("off", false), ("a", true)] : AL Bool).Perm [("a", true), ("off", false)] := List.Perm.swap _ _ _
 
-/-- **graph.newGraph is order dependent**: one iteration order reports a dependency cycle, the other accepts the
-project (and silently drops the self dependency from it). -/
-theorem newGraph_order_dependent :
-    newGraph selfFirst ["off"] = .error .cycle ∧
-    newGraph optFirst ["off"] = .ok [⟨"a", [("off", false)]⟩] := by
+/-- **the old graph.newGraph was order dependent**: one iteration order reported a dependency cycle, the other accepted
+the project (and silently dropped the self dependency from it). -/
+theorem newGraphOld_order_dependent :
+    newGraphOld selfFirst ["off"] = .error .cycle ∧
+    newGraphOld optFirst ["off"] = .ok [⟨"a", [("off", false)]⟩] := by
   decide
 
-theorem newGraph_not_perm_invariant :
+theorem newGraphOld_not_perm_invariant :
     ¬ (∀ (d d' : AL Bool), d'.Perm d →
-        (newGraph [⟨"a", d'⟩] ["off"]).toBool = (newGraph [⟨"a", d⟩] ["off"]).toBool) := by
+        (newGraphOld [⟨"a", d'⟩] ["off"]).toBool = (newGraphOld [⟨"a", d⟩] ["off"]).toBool) := by
   intro h
   have := h [("a", true), ("off", false)] [("off", false), ("a", true)] (List.Perm.swap _ _ _)
   revert this
+  decide
+
+/-- **after the repair** both orders report the cycle -/
+theorem newGraph_both_orders_now :
+    newGraph selfFirst ["off"] = .error .cycle ∧ newGraph optFirst ["off"] = .error .cycle := by
   decide
 
 /-- the pre-fix decoder returns the keys in iteration order -/
